@@ -1,5 +1,5 @@
 (* More operations under which coherence (PropSim.COH) is kept: binding an EXISTING unbound property (which may have readers) with
-   immediate evaluation, and Property::reset(). *)
+   immediate evaluation, Property::reset(), and assigning a new immediate binding to a bound property. *)
 From KDB Require Import Util UtilProofs PropDefs PropFlags PropLink PropLinkBasics PropLinkOps PropLinkTheorems PropSim PropGrow PropSimLazy PropGrowLazy.
 From KDB Require PropAbs PropAbsProofs PropProofs PropCheck.
 Module A := PropAbs.
@@ -133,12 +133,75 @@ Section More.
     assert (T' = T) by congruence. subst T'. auto.
   Qed.
 
+  (* ---- assigning a new binding to a BOUND property = reset(), then the assignment ---- *)
+  Lemma remove_key_idem {X} (m : nmap X) k : remove_key (remove_key m k) k = remove_key m k.
+  Proof.
+    induction m as [|[k' x] t IH]; cbn; [reflexivity|]. destruct (Nat.eqb_spec k k') as [->|Hne]; [exact IH|].
+    cbn. destruct (Nat.eqb_spec k k'); [contradiction|]. rewrite IH. reflexivity.
+  Qed.
+  Lemma bind_key_twice {X} (m : nmap X) k (x y : X) : bind_key (bind_key m k x) k y = bind_key m k y.
+  Proof. unfold bind_key. cbn. rewrite Nat.eqb_refl, remove_key_idem. reflexivity. Qed.
+
+  Lemma assign_over_bound fuel w p pr old w1 b x :
+    lookup (w_props w) p = Some pr -> pr_updater pr = Some old -> destroy_binding w old = (w1, None) -> w_props w1 = w_props w ->
+    get_bind w1 b = Some x ->
+    assign_binding fn rtl fuel w p b =
+    assign_binding fn rtl fuel (set_props w1 (bind_key (w_props w1) p (prop_set_updater pr None))) p b.
+  Proof.
+    intros Hp Hu Hd Hpr Hb. unfold assign_binding. rewrite Hp, Hu, Hd. rewrite Hpr, Hp.
+    cbn [set_props w_props]. rewrite lookup_bind_same. cbn [prop_set_updater pr_updater ok]. cbn [set_props w_props]. rewrite lookup_bind_same.
+    change (get_bind (set_props w1 (bind_key (w_props w) p (prop_set_updater pr None))) b) with (get_bind w1 b).
+    rewrite Hb. rewrite bind_key_twice. reflexivity.
+  Qed.
+
+  Lemma grow_rebind fuel w p pr old e w' :
+    SC w -> COH w -> lookup (w_props w) p = Some pr -> pr_updater pr = Some old ->
+    step1 fn rtl fuel w (PBind p e MImmediate) = (w', None) -> SC w' /\ COH w'.
+  Proof.
+    intros HSC HC Hp Hu H. pose proof HSC as (Hinv & Hna & Hsi). cbn [step1] in H.
+    destruct (make_binding fn rtl w e MImmediate) as [[w1 b]|x] eqn:Hm; [|discriminate H].
+    destruct (make_binding_grow fn rtl _ _ _ _ Hinv Hm) as (G & Eb & xb & Hxb & Hevp & Htg & Htree).
+    destruct (make_binding_pinv _ _ _ _ _ _ _ Hinv Hm) as (Hinv1 & _ & Hheld).
+    pose proof (make_binding_updaters _ _ _ _ _ Hinv Hm p) as Eu.
+    assert (Pp : pview w p = Some (psigs_of pr)) by (unfold pview; rewrite Hp; reflexivity). rewrite Pp in Eu. cbn in Eu.
+    destruct (lookup (w_props w1) p) as [pr1|] eqn:Hp1; [|unfold pview in Eu; rewrite Hp1 in Eu; discriminate Eu].
+    assert (Hu1 : pr_updater pr1 = Some old) by (unfold pview in Eu; rewrite Hp1 in Eu; cbn in Eu; congruence).
+    pose proof (GR_SC _ _ G Hinv1 HSC) as SC1. pose proof (GR_COH fn _ _ G HC) as COH1.
+    (* the replaced binding goes first: exactly what reset() does *)
+    destruct (destroy_binding w1 old) as [w2 [ex|]] eqn:Hd.
+    { unfold assign_binding in H. rewrite Hp1, Hu1, Hd in H. discriminate H. }
+    assert (Hpr2 : w_props w2 = w_props w1) by (pose proof (PropProofs.destroy_binding_props w1 old) as [E _]; rewrite Hd in E; exact E).
+    assert (Hne : b <> old).
+    { intros ->. assert (P1 : pview w1 p = Some (psigs_of pr1)) by (unfold pview; rewrite Hp1; reflexivity).
+      destruct (pi_upd _ _ _ _ _ _ _ Hinv1 _ _ _ P1 Hu1 (fun z => z)) as (ls & E). unfold bview in E. rewrite Hxb, Htg in E. discriminate E. }
+    assert (Hb2 : get_bind w2 b = Some xb) by (rewrite (destroy_binding_get_bind _ _ _ _ Hd b Hne); exact Hxb).
+    rewrite (assign_over_bound fuel w1 p pr1 old w2 b xb Hp1 Hu1 Hd Hpr2 Hb2) in H.
+    set (wr := set_props w2 (bind_key (w_props w2) p (prop_set_updater pr1 None))) in *.
+    assert (Hreset : step1 fn rtl fuel w1 (PReset p) = (wr, None)).
+    { cbn [step1]. rewrite Hp1, Hu1, Hd. rewrite Hpr2, Hp1. unfold wr. rewrite Hpr2. reflexivity. }
+    destruct (grow_reset fuel w1 p wr SC1 COH1 Hreset) as [SCr COHr].
+    assert (Hbr : get_bind wr b = Some xb) by exact Hb2.
+    assert (Hheldr : forall n, lookup (w_held wr) n <> Some b).
+    { pose proof (PropProofs.destroy_binding_props w1 old) as _. intros n. change (w_held wr) with (w_held w2).
+      destruct (destroy_binding_pinvg _ _ _ _ _ _ _ _ _ Hinv1 (fun z => z) Hd) as (_ & _ & _ & _ & _ & _ & E & _). rewrite E. apply Hheld. }
+    assert (Vr : forall q, values wr q = values w1 q).
+    { intros q. unfold values, wr; cbn [set_props w_props]. rewrite lookup_bind, Hpr2. destruct (Nat.eqb_spec q p) as [->|]; [rewrite Hp1; reflexivity|reflexivity]. }
+    set (env0 := fun p0 => match values w p0 with Some v => v | None => 0%Z end).
+    destruct (Htree env0 p) as (T & HT & _); [intros p0 v0 E; unfold env0; rewrite E; reflexivity|].
+    apply (assign_fresh fn rtl fuel wr p (prop_set_updater pr1 None) b xb T w' SCr COHr); auto.
+    - unfold wr; cbn [set_props w_props]. apply lookup_bind_same.
+    - intros s (R1 & R2 & R3).
+      destruct (Htree (A.env s) p) as (T' & HT' & C' & N' & V').
+      { intros p0 v0 E. destruct G as (_ & _ & G3 & _). rewrite <- G3, <- Vr in E. apply values_lookup in E. destruct E as (pr0 & Hp0 & Ev). rewrite <- Ev. apply R1. exact Hp0. }
+      assert (T' = T) by congruence. subst T'. split; [exact C'|]. split; [exact N'|]. intros p0 lid Hi. rewrite Vr. exact (V' p0 lid Hi).
+  Qed.
+
   (* ---- histories: growing networks whose properties may also be bound later and reset ---- *)
   Definition grow_op2 (w : world) (o : op) : Prop :=
     match o with
     | PNew _ _ | PSet _ _ _ | PGet _ | PHasBinding _ | PReset _ => True
     | PObserve _ _ _ _ None => True
-    | PBind p _ MImmediate => match lookup (w_props w) p with None => True | Some pr => pr_updater pr = None end
+    | PBind _ _ MImmediate => True
     | _ => False
     end.
 
@@ -152,7 +215,7 @@ Section More.
     - eapply (grow_step fn rtl); eauto. exact I.
     - destruct act; [destruct Ho|]. eapply (grow_step fn rtl); eauto. exact I.
     - destruct m; [|destruct Ho]. destruct (lookup (w_props w) p) as [pr|] eqn:Hp.
-      + eapply grow_bind_unbound; eauto.
+      + destruct (pr_updater pr) as [old|] eqn:Hu; [eapply grow_rebind; eauto|eapply grow_bind_unbound; eauto].
       + eapply (grow_bind fn rtl); eauto.
     - eapply grow_reset; eauto.
   Qed.
